@@ -523,6 +523,17 @@ def call_builtin(self, name, pos, kw, node, fr):
             return TRUE if (names & want) else FALSE
         if xa is not None and xa.kind == 'closure':
             return FALSE
+        tnames = set()
+        for a in T.all_atoms(pos[1]).values():
+            if a.kind in ('builtin', 'ext', 'class'):
+                tnames.add(str(a.args[0]).split('.')[-1])
+        SCALARS = {'int', 'float', 'integer', 'floating', 'number', 'Number', 'Real', 'Integral', 'generic', 'complex',
+                   'complexfloating'}
+        if tnames and tnames <= SCALARS:
+            # "is a scalar": which scalar types are listed is decided by the SCALARFORM rule, not by term comparison
+            if pos[0].const() is not None:
+                return TRUE
+            return T.mk_call('isinstance', [pos[0], Term.of(Atom('builtin', '<scalar types>'))])
         if xa is not None and xa.kind == 'new':
             ci = self.prog.classes.get(xa.args[0])
             if ta is not None and ta.kind == 'class':
